@@ -416,7 +416,9 @@ func (h *vHist) observeRepoOpt(r *Repository, n int, withPrev bool) string {
 	for i := 0; i < n; i++ {
 		ht := r.HashHeight(h.hash[i])
 		ch, longest, cerr := r.CheckHeader(h.ctx, h.hash[i])
-		_, gh, glongest, gerr := r.GetHeader(h.ctx, h.hash[i])
+		ghd, gh, glongest, gerr := r.GetHeader(h.ctx, h.hash[i])
+		// the header returned for a hash is the header with that hash
+		gsame := gerr == nil && ghd != nil && ghd.BlockHash().Equal(&h.hash[i])
 		ph, pht := r.PreviousHash(h.hash[i])
 		pi := -1
 		if ph != nil {
@@ -425,7 +427,7 @@ func (h *vHist) observeRepoOpt(r *Repository, n int, withPrev bool) string {
 		if !withPrev {
 			pi, pht = -2, -2
 		}
-		fmt.Fprintf(&b, "%d:%d/%d,%t,%t/%d,%t,%t/%d,%d ", i, ht, ch, longest, cerr == nil, gh, glongest, gerr == nil, pi, pht)
+		fmt.Fprintf(&b, "%d:%d/%d,%t,%t/%d,%t,%t,%t/%d,%d ", i, ht, ch, longest, cerr == nil, gh, glongest, gerr == nil, gsame, pi, pht)
 	}
 	return b.String()
 }
